@@ -490,9 +490,38 @@ func (c *Ctx) loginStamps(refresh *ssa.Function, last string) {
 				ok = true
 			}
 		}
-		if len(evs) == 0 {
+		if len(evs) == 0 && pkgOf(s.Fn) == "ab/remember" {
 			r.Info("C09.login-stamp", name, "PutSession(uid)", pos, "issues a session without firing any After event (remember cookie login: documented upstream as incompatible with the expire middleware)")
 			continue
+		}
+		if len(evs) == 0 {
+			r.Bad("C09.login-stamp", name, "PutSession(uid)", pos, "this login issues a session without firing any After event: expire.Setup has nothing to stamp, so the session starts without an idle clock (and a stale last_action of an earlier session would expire it at once)")
+			continue
+		}
+		if ok {
+			// the stamped event is fired on every completing path after the write
+			// (or was fired before it)
+			q := PathQuery{From: s.Op.Call.(ssa.Instruction), Cut: func(i ssa.Instruction) bool {
+				for _, f := range Fires(s.Fn) {
+					if !f.Before && f.Const && stamped[f.Event] && f.Call.(ssa.Instruction) == i {
+						return true
+					}
+				}
+				return false
+			}, Goal: func(i ssa.Instruction) bool {
+				ret, isRet := i.(*ssa.Return)
+				return isRet && !c.isErrorExit(ret)
+			}}
+			dominated := false
+			for _, f := range Fires(s.Fn) {
+				if !f.Before && f.Const && stamped[f.Event] && InstrDominates(f.Call.(ssa.Instruction), s.Op.Call.(ssa.Instruction)) {
+					dominated = true
+				}
+			}
+			if p := q.Find(); p != nil && !dominated {
+				r.Bad("C09.login-stamp", name, "PutSession(uid)|every path", pos, "a completing path after the session write fires no After event that expire.Setup stamps: that login starts no idle clock", c.P.DescribePath(p)...)
+				continue
+			}
 		}
 		r.Check(ok, "C09.login-stamp", name, "PutSession(uid)", pos, "the login's After event ("+strings.Join(evs, ",")+") is stamped by expire.Setup", "login starts no idle clock: none of the After events fired on this login path ("+strings.Join(evs, ",")+") has a stamping handler registered by expire.Setup")
 	}
